@@ -1,6 +1,7 @@
 import AcraModel.Sql.Shape
 import AcraModel.Sql.GoNum
 import AcraModel.Sql.LogModel
+import AcraModel.Sql.LogSites
 /-! Driver ops for C16 (redaction). Trees travel as token lists (`Sql.render` / `Sql.parseTreeAll`). -/
 namespace Driver.C16
 open AcraModel AcraModel.Sql
@@ -57,6 +58,12 @@ def handle (op : String) (args : List String) : Option String :=
   | "bindvars", toks => do
       let t ← parseTreeAll toks
       pure ("ok " ++ ",".intercalate ((bindvars t).map hexOf))
+  | "logsite", [level, msg] => do
+      let m ← ofHex msg
+      let text := String.mk (m.map fun b => Char.ofNat b.toNat)
+      match LogSites.sitesOf level text with
+      | [] => pure "unknown"
+      | ss => pure ("known " ++ toString ss.length ++ " " ++ ",".intercalate (ss.map fun s => s.1 ++ ":" ++ s.2))
   | "shape", toks => do
       let t ← parseTreeAll toks
       pure ("ok " ++ renderStr (shape t))
